@@ -950,4 +950,38 @@ theorem trimChars_nil_iff (cs : List Char) : trimChars cs = [] ↔ ∀ c ∈ cs,
     have : cs.dropWhile isWs = [] := (dropWhile_nil_iff _ _).mpr h
     simp [this]
 
+/-! ### the STORE grammar's brace matcher -/
+
+theorem pegBalanced_none_of_ne (f : Nat) (c : Char) (cs : List Char) (h : c ≠ '{') :
+    pegBalanced f (c :: cs) = none := by
+  unfold pegBalanced
+  split
+  · rename_i heq
+    cases heq
+    exact absurd rfl h
+  · rfl
+
+theorem pegBody_plain (body rest : List Char) (hb : ∀ c ∈ body, c ≠ '{' ∧ c ≠ '}') :
+    ∀ f, body.length + 1 ≤ f → pegBody f (body ++ '}' :: rest) = some rest := by
+  induction body with
+  | nil =>
+    intro f hf
+    obtain ⟨f, rfl⟩ : ∃ g, f = g + 1 := ⟨f - 1, by simp at hf; omega⟩
+    simp [pegBody, pegBalanced_none_of_ne f '}' rest (by decide)]
+  | cons c b ih =>
+    intro f hf
+    obtain ⟨f, rfl⟩ : ∃ g, f = g + 1 := ⟨f - 1, by simp at hf; omega⟩
+    have hc := hb c (List.mem_cons_self ..)
+    have := ih (fun x hx => hb x (List.mem_cons_of_mem _ hx)) f (by simp at hf ⊢; omega)
+    simp only [List.cons_append, pegBody, pegBalanced_none_of_ne f c _ hc.1]
+    split
+    · rename_i heq
+      cases heq
+      exact absurd rfl hc.2
+    · rename_i heq
+      cases heq
+      exact this
+    · rename_i heq
+      cases heq
+
 end Snel.Validate
